@@ -164,7 +164,7 @@ impl Property for C13 {
     fn runs(&self, tier: Tier) -> u64 {
         match tier {
             Tier::Quick => 16 * 12,
-            Tier::Thorough => 16 * 400,
+            Tier::Thorough => 16 * 600,
         }
     }
 
